@@ -32,6 +32,13 @@
 #error "the compat fnmatch is what this harness is about"
 #endif
 
+/* mempool.c/regex.c are part of this translation unit: an armed statement can be inlined down to a
+ * bare calloc(), which glibc declares `leaf` (= does not call back into this unit), and the
+ * compiler may then drop the store to the static fi_armed.  The barriers keep it. */
+#undef ARM
+#define ARM(stmt) do { fi_armed = 1; __asm__ __volatile__("" ::: "memory"); stmt; \
+	__asm__ __volatile__("" ::: "memory"); fi_armed = 0; } while (0)
+
 #define CX (&fi_cx)
 #define NSLOT 256
 #define BAD() do { puts("bad-op"); return; } while (0)
@@ -275,7 +282,7 @@ static void do_cxs(int n, char **w)
 	if (n < 3) BAD();
 	z = hexz(w[2], &zl);
 	if (!z) BAD();
-	if (zl > 3000) { free(z); BAD(); }
+	if (zl > 1500) { free(z); BAD(); }
 	if ((n == 4 && (!strcmp(w[1], "sprintf") || !strcmp(w[1], "asprintf")))) {
 		if (!numarg(w[3], &a) || a < -1000000 || a > 1000000) { free(z); BAD(); }
 		elen = snprintf(exp, sizeof exp, "%s/%d|%s", z, (int)a, z);
